@@ -100,22 +100,22 @@ class EventLog(object):
         return self._h.hexdigest()
 
 
-class Violation(Exception):
+class Violation(BaseException):
     """The property is broken on the real code.  kind = violation class,
     key = call site / condition used for matching known findings."""
 
     def __init__(self, kind, key, msg):
-        Exception.__init__(self, "%s [%s] %s" % (kind, key, msg))
+        BaseException.__init__(self, "%s [%s] %s" % (kind, key, msg))
         self.kind = kind
         self.key = key
         self.msg = msg
 
 
-class Budget(Exception):
+class Budget(BaseException):
     """A bounded-liveness cap was hit where the property promises no bound."""
 
 
-class Discard(Exception):
+class Discard(BaseException):
     """The run entered a documented ambiguity window of the oracle."""
 
 
